@@ -90,7 +90,7 @@ class FileBasedTapeCassette(TapeCassette):
             if not file_name.startswith(category):
                 continue
 
-            recording_id = file_name.split('.')[0]
+            recording_id = os.path.splitext(file_name)[0]
             recording = self.get_recording(recording_id)
 
             # File name prefix is also shared by other categories (e.g. 'Op' and 'OpB' or 'Op_b')
